@@ -994,7 +994,7 @@ func recvCh[T any](
 
 func (broker *Broker) handleSendError(payload sts.Payload, nPartsReceived int) sts.Payload {
 	nErr := 0
-	var n int
+	n := nPartsReceived
 	var err error
 	for {
 		if broker.shouldStopNow() {
